@@ -2,7 +2,7 @@
 //! or a real h2 client) against canary TCP/UDP listeners on loopback: which requests cause egress, and how each is answered.
 //! in : [auth_cfg, http2, sni_mode, private_allowed] then per request four tokens: [method_kind] target header payload
 //!        auth_cfg : 0 no authenticator | 1 registry (u1:p1, "ü:pä ss") | 2 custom: registry pairs + SNI credentials "snicreds-7e2a9c-canary"
-//!        sni_mode : 0 none | 1 "snicreds" | 2 "bad"
+//!        sni_mode : 0 none | 1 "snicreds" | 2 "bad" | 3 the accepted credentials with some letters in upper case
 //!        method_kind : 1 CONNECT | 6 GET | 7 POST | 8 PUT ; target: authority (CONNECT) or absolute URI, `@A` `@B` `@U` are
 //!                      replaced by the canary addresses (TCP A, TCP B, UDP)
 //!        header  : raw Proxy-Authorization value (`-` = header absent)
@@ -316,6 +316,8 @@ pub fn session(toks: Vec<Tok>) -> Vec<Tok> {
         let sni = match cfg[2] {
             0 => None,
             1 => Some("snicreds-7e2a9c-canary".to_string()),
+            // the accepted credentials in another case: not what the authenticator accepts
+            3 => Some("SNICREDS-7E2A9C-canary".to_string()),
             _ => Some("badcreds-51f0aa-canary".to_string()),
         };
         let c = canaries().await;
